@@ -126,7 +126,11 @@ func runErrProto(c *Ctx, r *Reporter) {
 	// test bookkeeping in evalFunccall: total++ on every path through the `test` branch, failures appended
 	if ef := find("(*Evaluator).evalFunccall"); ef != nil {
 		incs, appends := 0, 0
-		for _, b := range ef.Blocks {
+		var efBlocks []*ssa.BasicBlock
+		for _, h := range regionFns(ef, 2, dispatcherNames) { // the bookkeeping may live in a helper of evalFunccall
+			efBlocks = append(efBlocks, h.Blocks...)
+		}
+		for _, b := range efBlocks {
 			for _, ins := range b.Instrs {
 				st, ok := ins.(*ssa.Store)
 				if !ok {
